@@ -92,6 +92,22 @@ theorem view_frame {p p' : Pool} (hI : Inv p) (_hL : p'.L = p.L) {x : Nat}
     · obtain ⟨k, blk, h1, h2, _, _, hown⟩ := hI.owner_block hb (by omega)
       simp [units, h1, hh k hown, h2]
 
+/-- what every operation guarantees about its successor state: the invariant, and that every object
+    outside the set `T` of operands is the very same object (pointer included) reporting the same value -/
+structure Succ (p p' : Pool) (T : Nat → Prop) : Prop where
+  inv : Inv p'
+  L : p'.L = p.L
+  failAt : p'.failAt = p.failAt
+  objs : ∀ x, ¬ T x → p'.objs x = p.objs x
+  view : ∀ x, ¬ T x → view p' x = view p x
+
+theorem Succ.mono {p p' : Pool} {T T' : Nat → Prop} (h : Succ p p' T) (hT : ∀ x, T x → T' x) : Succ p p' T' :=
+  ⟨h.inv, h.L, h.failAt, fun x hx => h.objs x (fun h' => hx (hT x h')), fun x hx => h.view x (fun h' => hx (hT x h'))⟩
+
+theorem Succ.trans {p p₁ p₂ : Pool} {T : Nat → Prop} (h₁ : Succ p p₁ T) (h₂ : Succ p₁ p₂ T) : Succ p p₂ T :=
+  ⟨h₂.inv, h₂.L.trans h₁.L, h₂.failAt.trans h₁.failAt, fun x hx => (h₂.objs x hx).trans (h₁.objs x hx),
+   fun x hx => (h₂.view x hx).trans (h₁.view x hx)⟩
+
 /-! ### ownership facts -/
 
 theorem Owns_of_eq {p p' : Pool} (hL : p'.L = p.L) {x k : Nat} (hx : p'.objs x = p.objs x) :
@@ -164,8 +180,8 @@ theorem Inv.frame {p p' : Pool} (hI : Inv p) (T : Nat → Prop) (hL : p'.L = p.L
 
 /-- nothing the invariant talks about changed (e.g. only the allocation counter moved) -/
 theorem Inv.same {p p' : Pool} (hI : Inv p) (hL : p'.L = p.L) (hobjs : ∀ x, p'.objs x = p.objs x)
-    (hheap : ∀ k, p'.heap k = p.heap k) (hnext : p'.next = p.next) :
-    Inv p' ∧ ∀ x, view p' x = view p x := by
+    (hheap : ∀ k, p'.heap k = p.heap k) (hnext : p'.next = p.next) (hF : p'.failAt = p.failAt) :
+    Succ p p' (fun _ => False) ∧ ∀ x, view p' x = view p x := by
   have := hI.frame (p' := p') (fun _ => False) hL (fun x _ => hobjs x) (fun _ k _ _ => hheap k)
     (fun _ _ h => h.elim) (fun _ _ _ h => h.elim) (fun _ _ _ h => h.elim)
     (fun k blk hk => by
@@ -173,7 +189,7 @@ theorem Inv.same {p p' : Pool} (hI : Inv p) (hL : p'.L = p.L) (hobjs : ∀ x, p'
       obtain ⟨y, hy⟩ := hI.noLeak k blk hk
       exact Or.inr ⟨y, fun h => h, hy⟩)
     (fun k blk hk => by rw [hheap] at hk; rw [hnext]; exact hI.bound k blk hk)
-  exact ⟨this.1, fun x => this.2 x (fun h => h)⟩
+  exact ⟨⟨this.1, hL, hF, fun x _ => hobjs x, this.2⟩, fun x => this.2 x (fun h => h)⟩
 
 /-! ### generic preservation lemmas -/
 
@@ -181,9 +197,8 @@ theorem Inv.same {p p' : Pool} (hI : Inv p) (hL : p'.L = p.L) (hobjs : ∀ x, p'
 theorem Inv.set_local {p p' : Pool} (hI : Inv p) {o : Nat} {nb : Option Buf} (hL : p'.L = p.L)
     (hself : p'.objs o = nb) (hoth : ∀ x, x ≠ o → p'.objs x = p.objs x)
     (hrel : ∀ k, Owns p o k → p'.heap k = none) (hheap : ∀ k, ¬ Owns p o k → p'.heap k = p.heap k)
-    (hnext : p'.next = p.next) (hb : ∀ b', nb = some b' → ShortOk p.L o b') :
-    Inv p' ∧ (∀ x, x ≠ o → view p' x = view p x) ∧
-      view p' o = nb.map (fun b' => (b'.size, b'.data.take b'.size)) := by
+    (hnext : p'.next = p.next) (hF : p'.failAt = p.failAt) (hb : ∀ b', nb = some b' → ShortOk p.L o b') :
+    Succ p p' (· = o) ∧ view p' o = nb.map (fun b' => (b'.size, b'.data.take b'.size)) := by
   have hnown : ∀ k, ¬ Owns p' o k := by
     rintro k ⟨b, h1, h2, _⟩
     rw [hself] at h1
@@ -203,10 +218,30 @@ theorem Inv.set_local {p p' : Pool} (hI : Inv p) {o : Nat} {nb : Option Buf} (hL
       obtain ⟨y, hy⟩ := hI.noLeak k blk hk'
       exact Or.inr ⟨y, fun e => hno (e ▸ hy), hy⟩)
     (fun k blk hk => by rw [hnext]; exact hI.bound k blk (hheap' k blk hk).2)
-  refine ⟨this.1, this.2, ?_⟩
+  refine ⟨⟨this.1, hL, hF, hoth, this.2⟩, ?_⟩
   cases nb with
   | none => simp [view, hself]
   | some b' => simpa using view_short hself (hb b' rfl).chars
+
+/-- an object is set to a self-contained local state (its former block, if any, released) -/
+theorem Inv.set_short {p p' : Pool} (hI : Inv p) {o n : Nat} {b' : Buf} {vs : List Nat} (hL : p'.L = p.L)
+    (hself : p'.objs o = some b') (hoth : ∀ x, x ≠ o → p'.objs x = p.objs x)
+    (hrel : ∀ k, Owns p o k → p'.heap k = none) (hheap : ∀ k, ¬ Owns p o k → p'.heap k = p.heap k)
+    (hnext : p'.next = p.next) (hF : p'.failAt = p.failAt) (hb : ShortOk p.L o b')
+    (hn : b'.size = n) (hv : b'.data.take n = vs) :
+    Succ p p' (· = o) ∧ view p' o = some (n, vs) := by
+  have := hI.set_local hL hself hoth hrel hheap hnext hF (fun b h => by cases h; exact hb)
+  refine ⟨this.1, ?_⟩
+  rw [this.2, ← hn, ← hv, ← hn]; rfl
+
+/-- an object is destroyed (its block, if any, released) -/
+theorem Inv.drop {p p' : Pool} (hI : Inv p) {o : Nat} (hL : p'.L = p.L)
+    (hself : p'.objs o = none) (hoth : ∀ x, x ≠ o → p'.objs x = p.objs x)
+    (hrel : ∀ k, Owns p o k → p'.heap k = none) (hheap : ∀ k, ¬ Owns p o k → p'.heap k = p.heap k)
+    (hnext : p'.next = p.next) (hF : p'.failAt = p.failAt) :
+    Succ p p' (· = o) ∧ view p' o = none := by
+  have := hI.set_local hL hself hoth hrel hheap hnext hF (fun b h => by cases h)
+  exact ⟨this.1, by rw [this.2]; rfl⟩
 
 /-- **an object that holds no block takes a freshly allocated one** -/
 theorem Inv.fresh {p p' : Pool} (hI : Inv p) {o n : Nat} {b' : Buf} {blk : List Nat} (hL : p'.L = p.L)
@@ -214,8 +249,9 @@ theorem Inv.fresh {p p' : Pool} (hI : Inv p) {o n : Nat} {b' : Buf} {blk : List 
     (hk : p'.heap p.next = some blk) (hheap : ∀ k, k ≠ p.next → p'.heap k = p.heap k)
     (hnext : p'.next = p.next + 1) (ho : NotOwning p o)
     (hc : b'.chars = .heap p.next) (hs : b'.size = n) (hn : p.L ≤ n) (hd : b'.data.length = p.L)
-    (hlen : blk.length = n + 1) (hterm : blk[n]? = some 0) :
-    Inv p' ∧ (∀ x, x ≠ o → view p' x = view p x) ∧ view p' o = some (n, blk.take n) := by
+    (hlen : blk.length = n + 1) (hterm : blk[n]? = some 0) (hF : p'.failAt = p.failAt)
+    {vs : List Nat} (hv : blk.take n = vs) :
+    Succ p p' (· = o) ∧ view p' o = some (n, vs) := by
   have hfresh : ∀ x, ¬ Owns p x p.next := by
     intro x hx
     obtain ⟨b, blk0, _, _, _, h4, _⟩ := hI.owns_heap hx
@@ -242,8 +278,8 @@ theorem Inv.fresh {p p' : Pool} (hI : Inv p) {o n : Nat} {b' : Buf} {blk : List 
       · omega
       · rw [hheap k e] at hk0
         have := hI.bound k blk0 hk0; omega)
-  refine ⟨this.1, this.2, ?_⟩
-  rw [view_long hself hc hk, hs]
+  refine ⟨⟨this.1, hL, hF, hoth, this.2⟩, ?_⟩
+  rw [view_long hself hc hk, hs, hv]
 
 /-- **a block is transferred**: `o` (holding none) takes over the block and size of `src`, which becomes local -/
 theorem Inv.transfer {p p' : Pool} (hI : Inv p) {o src k : Nat} {bs bo' bs' : Buf} (hL : p'.L = p.L)
@@ -252,8 +288,8 @@ theorem Inv.transfer {p p' : Pool} (hI : Inv p) {o src k : Nat} {bs bo' bs' : Bu
     (hoth : ∀ x, x ≠ o → x ≠ src → p'.objs x = p.objs x)
     (hheap : ∀ k, p'.heap k = p.heap k) (hnext : p'.next = p.next)
     (hc : bo'.chars = .heap k) (hsz : bo'.size = bs.size) (hd : bo'.data.length = p.L)
-    (hb : ShortOk p.L src bs') :
-    Inv p' ∧ (∀ x, x ≠ o → x ≠ src → view p' x = view p x) ∧ view p' o = view p src ∧
+    (hb : ShortOk p.L src bs') (hF : p'.failAt = p.failAt) :
+    Succ p p' (fun x => x = o ∨ x = src) ∧ view p' o = view p src ∧
       view p' src = some (bs'.size, bs'.data.take bs'.size) := by
   have hown : Owns p src k := ⟨bs, hsrc, hsl, hsc⟩
   obtain ⟨_, blk, e1, _, _, hblk, hlen, hterm⟩ := hI.owns_heap hown
@@ -283,7 +319,7 @@ theorem Inv.transfer {p p' : Pool} (hI : Inv p) {o src k : Nat} {bs bo' bs' : Bu
         exact Or.inl ⟨o, Or.inl rfl, bo', ho', by rw [hL, hsz]; exact hsl, hc⟩
       · exact Or.inr ⟨y, fun h => h.elim (fun e' => ho.not_owns k' (e' ▸ hy)) e, hy⟩)
     (fun k' blk' hk' => by rw [hheap] at hk'; rw [hnext]; exact hI.bound k' blk' hk')
-  refine ⟨this.1, fun x h1 h2 => this.2 x (fun h => h.elim h1 h2), ?_, view_short hs' hb.chars⟩
+  refine ⟨⟨this.1, hL, hF, fun x hx => hoth x (fun e => hx (Or.inl e)) (fun e => hx (Or.inr e)), this.2⟩, ?_, view_short hs' hb.chars⟩
   rw [view_long ho' hc (by rw [hheap]; exact hblk), view_long hsrc hsc hblk, hsz]
 
 /-- **two long objects exchange their blocks** -/
@@ -295,8 +331,9 @@ theorem Inv.swap_long {p p' : Pool} (hI : Inv p) {o src k₁ k₂ : Nat} {bo bs 
     (hoth : ∀ x, x ≠ o → x ≠ src → p'.objs x = p.objs x)
     (hheap : ∀ k, p'.heap k = p.heap k) (hnext : p'.next = p.next)
     (hc₁ : bo'.chars = .heap k₂) (hsz₁ : bo'.size = bs.size) (hd₁ : bo'.data.length = p.L)
-    (hc₂ : bs'.chars = .heap k₁) (hsz₂ : bs'.size = bo.size) (hd₂ : bs'.data.length = p.L) :
-    Inv p' ∧ (∀ x, x ≠ o → x ≠ src → view p' x = view p x) ∧ view p' o = view p src ∧ view p' src = view p o := by
+    (hc₂ : bs'.chars = .heap k₁) (hsz₂ : bs'.size = bo.size) (hd₂ : bs'.data.length = p.L)
+    (hF : p'.failAt = p.failAt) :
+    Succ p p' (fun x => x = o ∨ x = src) ∧ view p' o = view p src ∧ view p' src = view p o := by
   have hown₁ : Owns p o k₁ := ⟨bo, hobj, hol, hoc⟩
   have hown₂ : Owns p src k₂ := ⟨bs, hsrc, hsl, hsc⟩
   obtain ⟨_, blk₁, e1, _, _, hblk₁, hlen₁, hterm₁⟩ := hI.owns_heap hown₁
@@ -340,7 +377,7 @@ theorem Inv.swap_long {p p' : Pool} (hI : Inv p) {o src k₁ k₂ : Nat} {bo bs 
           exact Or.inl ⟨o, Or.inl rfl, bo', ho', by rw [hL, hsz₁]; exact hsl, hc₁⟩
         · exact Or.inr ⟨y, fun h => h.elim e₁ e₂, hy⟩)
     (fun k' blk' hk' => by rw [hheap] at hk'; rw [hnext]; exact hI.bound k' blk' hk')
-  refine ⟨this.1, fun x h1 h2 => this.2 x (fun h => h.elim h1 h2), ?_, ?_⟩
+  refine ⟨⟨this.1, hL, hF, fun x hx => hoth x (fun e => hx (Or.inl e)) (fun e => hx (Or.inr e)), this.2⟩, ?_, ?_⟩
   · rw [view_long ho' hc₁ (by rw [hheap]; exact hblk₂), view_long hsrc hsc hblk₂, hsz₁]
   · rw [view_long hs' hc₂ (by rw [hheap]; exact hblk₁), view_long hobj hoc hblk₁, hsz₂]
 
@@ -349,8 +386,8 @@ theorem Inv.write_long {p p' : Pool} (hI : Inv p) {o k : Nat} {b : Buf} {blk blk
     (hobj : p.objs o = some b) (hl : p.L ≤ b.size) (hc : b.chars = .heap k) (hblk : p.heap k = some blk)
     (hobjs : ∀ x, p'.objs x = p.objs x)
     (hk : p'.heap k = some blk') (hheap : ∀ x, x ≠ k → p'.heap x = p.heap x) (hnext : p'.next = p.next)
-    (hlen : blk'.length = blk.length) (hterm : blk'[b.size]? = some 0) :
-    Inv p' ∧ (∀ x, x ≠ o → view p' x = view p x) ∧ view p' o = some (b.size, blk'.take b.size) := by
+    (hlen : blk'.length = blk.length) (hterm : blk'[b.size]? = some 0) (hF : p'.failAt = p.failAt) :
+    Succ p p' (· = o) ∧ view p' o = some (b.size, blk'.take b.size) := by
   have hown : Owns p o k := ⟨b, hobj, hl, hc⟩
   obtain ⟨_, blk0, e1, _, _, hblk0, hlen0, _⟩ := hI.owns_heap hown
   rw [hobj] at e1; cases e1
@@ -382,7 +419,7 @@ theorem Inv.write_long {p p' : Pool} (hI : Inv p) {o k : Nat} {b : Buf} {blk blk
     (fun k' blk0 hk0 => by
       obtain ⟨blk1, h1⟩ := hpos k' blk0 hk0
       rw [hnext]; exact hI.bound k' blk1 h1)
-  refine ⟨this.1, this.2, ?_⟩
+  refine ⟨⟨this.1, hL, hF, fun x _ => hobjs x, this.2⟩, ?_⟩
   rw [view_long (by rw [hobjs]; exact hobj) hc hk]
 
 end StVerif.Pool
